@@ -73,6 +73,21 @@ def pinvForwardSvd (m n r : Nat) (U V : Nat → Nat → α) (sigma : Nat → α)
     (b : Nat → α) : Tab α :=
   pinvForward m n (pinvOfSvd r U V sigma (pinvCutoff atol rtol m n eps (sigma 0))) b
 
+/-- `Σ`-style maximum `max_{t<r} f t` (0 for `r = 0`) -/
+def maxN : Nat → (Nat → α) → α
+  | 0, _ => k 0
+  | r+1, f => smax (maxN r f) (f r)
+
+/-- `pinv(A, hermitian=True)`: the kernel diagonalises the symmetric matrix read from ONE triangle (`eigh`: `Q`, `lam`),
+uses `|lam|` as singular values and `sign(lam)·Q` as left factor.  (`spm 0 = +1`.) -/
+def pinvOfEigh (r : Nat) (Q : Nat → Nat → α) (lam : Nat → α) (cut : α) : Nat → Nat → α :=
+  pinvOfSvd r (fun i t => Q i t * spm (lam t)) Q (fun t => sabs (lam t)) cut
+
+/-- `PINV(hermitian=True).forward` with the kernel unfolded to an eigendecomposition -/
+def pinvForwardEigh (n : Nat) (Q : Nat → Nat → α) (lam : Nat → α) (atol rtol : Option α) (eps : α)
+    (b : Nat → α) : Tab α :=
+  pinvForward n n (pinvOfEigh n Q lam (pinvCutoff atol rtol n n eps (maxN n fun t => sabs (lam t)))) b
+
 /-- `lstsq(A, b).solution` followed by the NaN assertion: the kernel's result is `none` when it contains
 a NaN (no NaN exists in the model's scalars). -/
 def lstsqForward (n : Nat) (sol : Option (Nat → α)) : Except String (Tab α) :=
@@ -212,6 +227,10 @@ def cgLoop (n : Nat) (A : Nat → Nat → α) (M : Option (Nat → Nat → α)) 
 `assert A.ndim == b.ndim`.  `.ok true` = unsqueezed. -/
 def cgEntry (ndimA ndimB : Nat) : Except String Bool :=
   if ndimA = ndimB + 1 then .ok true else if ndimA = ndimB then .ok false else .error "assert:ndim"
+
+/-- the property's quantifier for CG ("single systems, as documented"): a matrix `A` and ONE right-hand side given as a
+vector `(n,)` or a column `(n, 1)` -/
+def cgInDomain (ndimA ndimB nrhs : Nat) : Bool := ndimA == 2 && (ndimB == 1 || (ndimB == 2 && nrhs == 1))
 
 /-- `x.any()` -/
 def anyNonzero (n : Nat) (x : Nat → α) : Bool :=
